@@ -61,15 +61,27 @@ class Cache:
 
         ref = self.ahash.hexdigest()
 
-        if ref in Cache._cache:
-            return Cache._cache[ref]
-        else:
+        if ref not in Cache._cache:
             data = self.func(*args, **kwargs)
             Cache._cache[ref] = data
             Cache._keys.append(ref)
             if len(Cache._keys) > MAX_SIZE:
                 delref = Cache._keys.pop(0)
                 Cache._cache.pop(delref)
+        else:
+            data = Cache._cache[ref]
+        # Return a copy so that in-place modifications of the returned
+        # data do not affect the cached data.
+        return self._copy_data(data)
+
+    @staticmethod
+    def _copy_data(data):
+        """Return a copy of the (tuple or list of) numpy array(s)"""
+        if isinstance(data, np.ndarray):
+            return data.copy()
+        elif isinstance(data, (tuple, list)):
+            return type(data)(Cache._copy_data(dd) for dd in data)
+        else:
             return data
 
     def _update_hash(self, arg):
